@@ -51,8 +51,8 @@ ASSUMPTIONS = [
     "1/|Jv|) (measured 1e-9..1e-12), FD tolerance 1e-4 ||Jv|| after "
     "Richardson extrapolation of direct-solve data (measured: median 1e-8, "
     "max 7e-6 - the accuracy of emg3d's own iterative J v solve on "
-    "ill-conditioned problems; mutants give >= 6e-2); per block 1e-3 "
-    "||Jv_block|| + 1e-5 ||Jv||",
+    "ill-conditioned problems; mutants give >= 6e-2); per block 1e-4 "
+    "||Jv_block|| + 2e-5 ||Jv||",
     "data-space vectors w are zero where the observed datum is NaN (missing "
     "data are not part of the data space; whether jtvec uses an entry of w "
     "at a missing datum depends on the noise model, so it is not generated)",
@@ -113,8 +113,6 @@ def _solve_log():
         if isinstance(info, dict) and 'exit' in info:
             log.append((int(info['exit']), kwargs.get('tol')))
         return out
-    solve.__module__ = orig.__module__
-    solve.__qualname__ = orig.__qualname__
     emg3d.solver.solve = solve
     try:
         yield log
@@ -295,9 +293,7 @@ def _case_same(spec, rec, fdir, tmp, log):
         tag += f":{history}"
     if via != 'same':
         tag += f":{via}"
-    v = simgen.direction(p, spec['vkind'], spec['vseed']) \
-        if spec['vkind'] != 'cell_any' else \
-        _direction(p, 'cell_any', spec['vseed'])
+    v = _direction(p, spec['vkind'], spec['vseed'])
     vv = v[0] if v.shape[0] == 1 else v
     vin = _as_vform(vv, vform)
     w0 = _wvec(obs.shape, obs, spec['vseed'])
@@ -382,7 +378,7 @@ def _case_same(spec, rec, fdir, tmp, log):
                     continue
                 eb = float(np.linalg.norm((fd-jv)[mb]))
                 blk_rel = max(blk_rel, eb/nb if nb > 1e-3*nv else 0.0)
-                if eb > 1e-3*nb + 1e-5*nv:
+                if eb > 1e-4*nb + 2e-5*nv:
                     raise Violation(
                         f"jvec_not_derivative_block:{tag}",
                         f"source {i} ({spec['problem']['src'][i]}), "
@@ -441,11 +437,13 @@ BOX_S = np.array([180., 120., 120.])
 BOX_R = np.array([280., 180., 180.])
 
 
-def gridding_spec():
+AUTO_MODES = ['single', 'frequency', 'source', 'both', 'same']
+MESH_MODES = ['input', 'dict']
+
+
+def gridding_spec(modes=AUTO_MODES + MESH_MODES):
     return st.fixed_dictionaries({
-        'gridding': st.sampled_from(['single', 'frequency', 'source',
-                                     'both', 'same', 'input', 'dict',
-                                     'input', 'dict']),
+        'gridding': st.sampled_from(list(modes)),
         'case': st.sampled_from(gen.CASES),
         'mapping': st.sampled_from(gen.MAPPINGS),
         'nsrc': st.integers(1, 2),
@@ -804,8 +802,11 @@ def run(ctx):
     ctx.regression(SUBS)
     ctx.explore('same', same_spec(), case_same, ctx.n(24, 40),
                 shrink=not ctx.quick)
-    ctx.explore('gridding', gridding_spec(), case_gridding, ctx.n(12, 30),
-                shrink=not ctx.quick)
+    # two families, so that every run has automatic grids and provided ones
+    ctx.explore('gridding', gridding_spec(AUTO_MODES), case_gridding,
+                ctx.n(7, 16), shrink=not ctx.quick)
+    ctx.explore('gridding', gridding_spec(MESH_MODES), case_gridding,
+                ctx.n(6, 14), shrink=not ctx.quick, salt=1)
     for sub in SUBS:
         if ctx.wants(sub):
             _bounded_inconclusive(ctx, sub)
